@@ -20,13 +20,17 @@
    role for tok has already been attempted") constrains only what concerns tok's create role and is otherwise
    satisfied by ARBITRARY operations (transfers, burns, freezes, SaveKeyValue, other tokens, other roles of tok,
    deliveries, re-deliveries and refunds of other messages, failing calls):
-     (1) an ESDTSetRole for tok whose role list contains ESDTRoleNFTCreate is executed at most once in the history,
-         and that list contains the role exactly once;
-     (2) no ESDTUnSetRole for tok whose role list contains ESDTRoleNFTCreate is executed;
-     (3) an ESDTNFTCreateRoleTransfer for tok is executed only (a) as an OCall whose caller is the ESDT system
-         contract and whose recipient currently holds the create role, or (b) by the consuming delivery or the
-         refund of an in-flight message — never by ORedeliver, never as an OCall by anybody else (the destination
-         branch of the function has no authorisation of its own: C07_forged_handover_refuted);
+     (1) an ESDTSetRole by the system contract for tok whose role list contains ESDTRoleNFTCreate is attempted at
+         most once in the history, and that list contains the role exactly once;
+     (2) no ESDTUnSetRole by the system contract for tok whose role list contains ESDTRoleNFTCreate is attempted;
+     (3) an ESDTNFTCreateRoleTransfer for tok with i_snd = false (no caller account on the executing shard) is
+         executed only (a) as an OCall whose caller is the ESDT system contract and whose recipient currently holds
+         the create role, or (b) by the consuming delivery or the refund of an in-flight message — never by
+         ORedeliver, never as an OCall by anybody else (the destination branch of the function has no authorisation
+         of its own: C07_forged_handover_refuted);
+         [calls that cannot succeed are not constrained: role calls by anybody but the system contract, and every
+         ESDTNFTCreateRoleTransfer with i_snd = true, i.e. every ordinary transaction naming that function:
+         C07_failing_attempts_are_disciplined]
      (4) the recipient-presence flag of every OCall of one of the three TRANSFER functions is truthful,
          i_dst = (recipient's shard = executing shard) — which a node guarantees by construction
          (C07_lying_presence_flag_refuted shows what a lying flag allows: a forged hand-over message).
@@ -205,10 +209,11 @@ Example C07_discipline_unfolded : forall (c : wcfg) tok g w op ops,
      /\ match op_exec c w op with
         | None => True
         | Some (sh, fn, i) =>
-          ((fn = C.BuiltInFunctionSetESDTRole /\ argn i 0 = tok /\ In C.ESDTRoleNFTCreate (tl (i_args i))) ->
+          ((fn = C.BuiltInFunctionSetESDTRole /\ i_caller i = SC /\ argn i 0 = tok /\ In C.ESDTRoleNFTCreate (tl (i_args i))) ->
              g = false /\ cnt C.ESDTRoleNFTCreate (tl (i_args i)) = 1%nat)
-          /\ ~ (fn = C.BuiltInFunctionUnSetESDTRole /\ argn i 0 = tok /\ In C.ESDTRoleNFTCreate (tl (i_args i)))
-          /\ ((fn = C.BuiltInFunctionESDTNFTCreateRoleTransfer /\ argn i 0 = tok) ->
+          /\ ~ (fn = C.BuiltInFunctionUnSetESDTRole /\ i_caller i = SC /\ argn i 0 = tok
+                /\ In C.ESDTRoleNFTCreate (tl (i_args i)))
+          /\ (((fn = C.BuiltInFunctionESDTNFTCreateRoleTransfer /\ argn i 0 = tok) /\ i_snd i = false) ->
                 match op with
                 | OCall _ _ _ => i_caller i = SC /\ holder c w tok sh (i_rcpt i)
                 | ODeliver _ _ | ORefund _ _ => True
@@ -220,7 +225,7 @@ Example C07_discipline_unfolded : forall (c : wcfg) tok g w op ops,
   /\ (disciplined c tok g w [] <-> True)
   /\ grant_attempt c tok w op =
        match op_exec c w op with
-       | Some (_, fn, i) => (beqb fn C.BuiltInFunctionSetESDTRole && beqb (argn i 0) tok
+       | Some (_, fn, i) => (beqb fn C.BuiltInFunctionSetESDTRole && beqb (i_caller i) SC && beqb (argn i 0) tok
                              && bytes_in C.ESDTRoleNFTCreate (tl (i_args i)))%bool
        | None => false
        end
@@ -353,10 +358,11 @@ Example C07_discipline_r_unfolded : forall (c : wcfg) tok g w op ops,
      /\ match op_exec c w op with
         | None => True
         | Some (sh, fn, i) =>
-          ((fn = C.BuiltInFunctionSetESDTRole /\ argn i 0 = tok /\ In C.ESDTRoleNFTCreate (tl (i_args i))) ->
+          ((fn = C.BuiltInFunctionSetESDTRole /\ i_caller i = SC /\ argn i 0 = tok /\ In C.ESDTRoleNFTCreate (tl (i_args i))) ->
              g = false /\ cnt C.ESDTRoleNFTCreate (tl (i_args i)) = 1%nat)
-          /\ ~ (fn = C.BuiltInFunctionUnSetESDTRole /\ argn i 0 = tok /\ In C.ESDTRoleNFTCreate (tl (i_args i)))
-          /\ ((fn = C.BuiltInFunctionESDTNFTCreateRoleTransfer /\ argn i 0 = tok) ->
+          /\ ~ (fn = C.BuiltInFunctionUnSetESDTRole /\ i_caller i = SC /\ argn i 0 = tok
+                /\ In C.ESDTRoleNFTCreate (tl (i_args i)))
+          /\ (((fn = C.BuiltInFunctionESDTNFTCreateRoleTransfer /\ argn i 0 = tok) /\ i_snd i = false) ->
                 match op with
                 | OCall _ _ _ => i_caller i = SC /\ holder c w tok sh (i_rcpt i)
                 | ODeliver id _ | ORedeliver id _ | ORefund id _ =>
@@ -438,6 +444,18 @@ Example C07_nonces_unique_nonvacuous :
   /\ L = [1; 2; 3; 4; 5] /\ NoDup L /\ StronglySorted N.lt L.
 Proof. exact nonces_unique_nonvacuous. Qed.
 
+(* attempts that cannot succeed are within the discipline *)
+Example C07_failing_attempts_are_disciplined :
+  c7_noise =
+    [ c7_set_role 0 c7_alice c7_tok; c7_create 0 c7_alice c7_tok;
+      OCall 0 C.BuiltInFunctionESDTNFTCreateRoleTransfer (c7_in c7_carol c7_carol [c7_tok; u64_bytes 0] true true);
+      OCall 0 C.BuiltInFunctionSetESDTRole (c7_in c7_carol c7_carol [c7_tok; C.ESDTRoleNFTCreate] true true);
+      OCall 0 C.BuiltInFunctionUnSetESDTRole (c7_in c7_carol c7_alice [c7_tok; C.ESDTRoleNFTCreate] false true);
+      c7_create 0 c7_carol c7_tok; c7_create 0 c7_alice c7_tok ]
+  /\ disciplinedb c7_cfg c7_tok false c7_w0 c7_noise = true /\ nowrapb c7_cfg c7_tok c7_w0 c7_noise = true
+  /\ length (snd (wrun_log c7_cfg c7_w0 c7_noise)) = 3%nat
+  /\ issued c7_tok (snd (wrun_log c7_cfg c7_w0 c7_noise)) = [1; 2].
+Proof. split; [reflexivity|]. exact failing_attempts_are_disciplined. Qed.
 (* a history with repeated deliveries accepted by the permissive discipline only *)
 Example C07_again_history : c7_again =
   [ c7_set_role 0 c7_alice c7_tok; c7_create 0 c7_alice c7_tok; c7_create 0 c7_alice c7_tok;
@@ -547,3 +565,4 @@ Print Assumptions C07_good_history.
 Print Assumptions C07_good_successes.
 Print Assumptions C07_again_history.
 Print Assumptions C07_f9_history.
+Print Assumptions C07_failing_attempts_are_disciplined.
